@@ -32,6 +32,8 @@ class Ctx:
         self.notes = []
         self.rules = {}  # rule -> dict(instances, floor, text)
         self.paths_enumerated = 0
+        self.floor_errors = []
+        self.rule_errors = []
 
     def rule(self, rule, text):
         self.rules.setdefault(rule, {"instances": 0, "failed": 0, "floor": 0, "text": text})
@@ -66,7 +68,8 @@ class Ctx:
         self.rules[rule]["floor"] = floor
         n = self.rules[rule]["instances"]
         if n < floor:
-            raise AnalysisError(f"rule={rule} matched {n} {what}, floor is {floor} (the rule would pass vacuously)")
+            # not raised at once: a violation found elsewhere takes priority over a missed floor (cli decides)
+            self.floor_errors.append(f"rule={rule} matched {n} {what}, floor is {floor} (the rule would pass vacuously)")
 
     def note(self, text):
         self.notes.append(text)
